@@ -35,7 +35,13 @@ variable {F : Type} [FloatOps F]
 
 theorem ops_covered : Gen.names =
     ["real", "integer", "abs", "add", "aq", "cos", "div", "gt", "idiv", "ifb", "ife", "ifl", "ifz",
-     "length", "ln", "lt", "max", "mod", "mul", "sin", "sqrt", "sub", "sigmoid", "sife"] := by
+     "length", "ln", "lt", "max", "mod", "mul", "sin", "sqrt", "sub", "sigmoid", "sife"] ∧
+    -- … and they are the classes of real.h / string.h in the class table extracted from the AST
+    -- (`classes_covered` below enumerates every symbol class of every primitive header)
+    (GenExt.classes.filter fun c => c.2.2.2 == "real.h" || c.2.2.2 == "string.h").map (·.1) =
+    ["real::real", "real::integer", "real::abs", "real::add", "real::aq", "real::cos", "real::div", "real::gt",
+     "real::idiv", "real::ifb", "real::ife", "real::ifl", "real::ifz", "real::length", "real::ln", "real::lt",
+     "real::max", "real::mod", "real::mul", "real::sin", "real::sqrt", "real::sub", "real::sigmoid", "str::ife"] := by
   decide
 
 /-- `issmall(v)` is `|v| < 2·ε`, strictly, with `2·ε` computed as the code computes it -/
